@@ -1,5 +1,5 @@
 import WacProofs.Lemmas.Document
-import WacProofs.Lemmas.Screen
+import WacProofs.Lemmas.C12Screen
 import WacProofs.Lemmas.LexShape
 import WacProofs.Lemmas.LexSpec
 /-
